@@ -35,8 +35,8 @@ pub enum MsgView {
 pub enum AwaitKind { Send, Reply, Join, Recv, Other }
 
 pub enum OpaqueTag {
-    BlockingTellTimeout { pid: int, d: Duration, chan: int },
-    BlockingAskTimeout { pid: int, d: Duration, chan: int },
+    /// environment fault: tokio could not build the helper thread's private runtime
+    RtBuildFailed,
 }
 
 pub enum HookTag { Handle(int), TellResult(int), Start, Run, Stop }
@@ -575,6 +575,106 @@ pub mod oneshot {
                 r is Ok ==> final(w).log() == old(w).log().push(Eff::Await(AwaitKind::Reply)).push(Eff::ReplyRecv(self.req(), r->Ok_0.vid())),
                 r is Err ==> final(w).log() == old(w).log().push(Eff::Await(AwaitKind::Reply)).push(Eff::ReplyClosed(self.req())),
                 same_ambient(*old(w), *final(w)),
+        { unimplemented!() }
+    }
+}
+
+// ---------------------------------------------------------------- rule H: helper thread + std one-shot hand-off (A14)
+/// a fresh OS thread: no task-local actor identity (tokio task-locals are per task; a new thread runs no task)
+#[verifier::external_body]
+pub struct HelperThread { _p: () }
+impl HelperThread { pub uninterp spec fn saved_actor(&self) -> Option<Identity>; pub uninterp spec fn saved_lock(&self) -> bool; }
+#[verifier::external_body]
+pub fn vx_thread_enter(w: &mut World) -> (t: HelperThread)
+    ensures t.saved_actor() == old(w).current_actor(), t.saved_lock() == old(w).lock_held(),
+        final(w).current_actor() == None::<Identity>, final(w).log() == old(w).log(),
+        !final(w).lock_held(), final(w).poisoned() == old(w).poisoned(),
+        final(w).graph() == old(w).graph(), final(w).mmon() == old(w).mmon(),
+        final(w).cap_cell() == old(w).cap_cell(), final(w).id_floor() == old(w).id_floor(),
+        final(w).chan_floor() == old(w).chan_floor(), final(w).dl_count() == old(w).dl_count(),
+        final(w).own_strong() == old(w).own_strong(), final(w).cells() == old(w).cells(),
+{ unimplemented!() }
+/// back on the calling thread (which was blocked in `recv` all the while)
+#[verifier::external_body]
+pub fn vx_thread_exit(t: HelperThread, w: &mut World)
+    requires !old(w).lock_held(), /*L:helper_thread.ends_without_the_wait_for_lock*/
+    ensures final(w).current_actor() == t.saved_actor(), final(w).log() == old(w).log(),
+        final(w).lock_held() == t.saved_lock(), final(w).poisoned() == old(w).poisoned(),
+        final(w).graph() == old(w).graph(), final(w).mmon() == old(w).mmon(),
+        final(w).cap_cell() == old(w).cap_cell(), final(w).id_floor() == old(w).id_floor(),
+        final(w).chan_floor() == old(w).chan_floor(), final(w).dl_count() == old(w).dl_count(),
+        final(w).own_strong() == old(w).own_strong(), final(w).cells() == old(w).cells(),
+{ }
+
+/// std::sync::mpsc used as a one-shot hand-off: `send` consumes the sender in the shim (the real one takes &self; the text
+/// `tx.send(v)` is the same), so at most one value travels per channel and `std_slot` - what the receiver will get - is
+/// well defined.  `recv` returns that value; if nothing was sent on the path taken (the sender was dropped) it fails.
+#[verifier::external_body]
+#[verifier::reject_recursive_types(V)]
+pub struct StdSender<V> { _p: PhantomData<fn() -> V> }
+#[verifier::external_body]
+#[verifier::reject_recursive_types(V)]
+pub struct StdReceiver<V> { _p: PhantomData<fn() -> V> }
+pub struct StdRecvError;
+pub struct StdSendError;
+pub uninterp spec fn std_slot<V>(ch: int) -> Option<V>;
+impl<V> StdSender<V> {
+    pub uninterp spec fn chan(&self) -> int;
+    #[verifier::external_body]
+    pub fn send(self, value: V, w: &mut World) -> (r: core::result::Result<(), StdSendError>)
+        ensures
+            std_slot::<V>(self.chan()) == Some(value),
+            final(w).log() == old(w).log(),
+            same_ambient(*old(w), *final(w)),
+    { unimplemented!() }
+}
+impl<V> StdReceiver<V> {
+    pub uninterp spec fn chan(&self) -> int;
+    #[verifier::external_body]
+    pub fn recv(&self, w: &mut World) -> (r: core::result::Result<V, StdRecvError>)
+        ensures
+            std_slot::<V>(self.chan()) matches Some(v) ==> r == Ok::<V, StdRecvError>(v),
+            std_slot::<V>(self.chan()) is None ==> r is Err,
+            final(w).log() == old(w).log(),
+            same_ambient(*old(w), *final(w)),
+    { unimplemented!() }
+}
+#[verifier::external_body]
+pub fn vx_std_channel<V>() -> (r: (StdSender<V>, StdReceiver<V>))
+    ensures r.0.chan() == r.1.chan(),
+{ unimplemented!() }
+
+/// tokio::runtime::{Builder, Runtime}: a private current-thread runtime.  Under rule R4 a future is its value, so `block_on`
+/// is the identity; building may fail (environment fault, logged as such).
+pub mod runtime {
+    use super::*;
+    #[verifier::external_body]
+    pub struct Builder { _p: () }
+    #[verifier::external_body]
+    pub struct Runtime { _p: () }
+    #[verifier::external_body]
+    pub struct IoError { _p: () }
+    impl Builder {
+        #[verifier::external_body]
+        pub fn new_current_thread() -> Builder { unimplemented!() }
+        #[verifier::external_body]
+        pub fn new_multi_thread() -> Builder { unimplemented!() }
+        #[verifier::external_body]
+        pub fn enable_time(self) -> Builder { unimplemented!() }
+        #[verifier::external_body]
+        pub fn enable_all(self) -> Builder { unimplemented!() }
+        #[verifier::external_body]
+        pub fn build(self, w: &mut World) -> (r: core::result::Result<Runtime, IoError>)
+            ensures
+                r is Ok ==> final(w).log() == old(w).log(),
+                r is Err ==> final(w).log() == old(w).log().push(Eff::Opaque(OpaqueTag::RtBuildFailed)),
+                same_ambient(*old(w), *final(w)),
+        { unimplemented!() }
+    }
+    impl Runtime {
+        #[verifier::external_body]
+        pub fn block_on<R>(&self, v: R) -> (r: R)
+            ensures r == v,
         { unimplemented!() }
     }
 }
